@@ -220,6 +220,9 @@ type vShard struct {
 
 var vIndexSeq uint64
 
+// vWalSyncInline: see vOpenShard.
+var vWalSyncInline bool
+
 // vClock emulates the cluster's logical clock: the meta service hands a store a larger clock on every
 // (re)start (app/ts-store/run/server.go), which is what keeps series ids unique across restarts.
 var vClock uint64
@@ -236,7 +239,7 @@ func vOpenShard(dir string) (*vShard, error) {
 	indexPath := filepath.Join(dir, defaultDb, "/index/data")
 	ident := &meta.IndexIdentifier{OwnerDb: defaultDb, OwnerPt: defaultPtId, Policy: defaultRp}
 	ident.Index = &meta.IndexDescriptor{IndexID: 1, IndexGroupID: 2, TimeRange: meta.TimeRangeInfo{}}
-	vIndexSeq = uint64(time.Now().Unix())
+	vIndexSeq = 1 << 20 // constant: series ids must not depend on the clock (replayable executions)
 	vClock++
 	opts := new(tsi.Options).
 		Ident(ident).
@@ -264,7 +267,11 @@ func vOpenShard(dir string) (*vShard, error) {
 	tr := &meta.TimeRangeInfo{StartTime: mustParseTime(time.RFC3339Nano, "1970-01-01T01:00:00Z"),
 		EndTime: mustParseTime(time.RFC3339Nano, "2099-01-01T01:00:00Z")}
 	shardIdent := &meta.ShardIdentifier{ShardID: defaultShardId, ShardGroupID: 1, OwnerDb: defaultDb, OwnerPt: defaultPtId, Policy: defaultRp}
-	sh := NewShard(dataPath, walPath, &lockPath, shardIdent, shardDuration, tr, DefaultEngineOption, config.TSSTORE, nil)
+	engOpt := DefaultEngineOption
+	if vWalSyncInline {
+		engOpt.WalSyncInterval = 0 // fsync inline: no timer-driven sync goroutine (controlled-scheduler runs)
+	}
+	sh := NewShard(dataPath, walPath, &lockPath, shardIdent, shardDuration, tr, engOpt, config.TSSTORE, nil)
 	sh.indexBuilder = indexBuilder
 	sh.SetWriteColdDuration(24 * time.Hour)
 	if err := sh.OpenAndEnable(nil); err != nil {
@@ -739,5 +746,3 @@ func vSetupEngineKnobs() {
 	}
 	immutable.SetMaxRowsPerSegment4TsStore(2)
 }
-
-
